@@ -222,7 +222,8 @@ func (s *Service) writeData(w http.ResponseWriter, data []byte, rc *http.Respons
 
 		if writeErr != nil {
 			rlog.Error("failed to write response", "error", writeErr)
-			return writeErr
+			// the client's connection failed, not the backend's
+			return &core.ClientSideError{Err: writeErr}
 		}
 
 		// Flush if we're in streaming mode
